@@ -23,7 +23,7 @@ NOT decided: that the bytes returned are the bytes delivered in order (value-lev
 
 ASSUMPTIONS = ['Read::read returns at most buf.len() (the Read contract)', 'Range<usize>::next yields end-start items']
 
-FLOORS = {'R17.1': 4, 'R17.2': 4, 'R17.3': 5, 'R17.4': 2, 'R17.5': 5, 'R17.6': 6}
+FLOORS = {'R17.1': 4, 'R17.2': 4, 'R17.3': 5, 'R17.4': 2, 'R17.5': 5, 'R17.6': 8, 'R17.7': 3}
 
 ARENA = 'owning_iovec::byte_arena::ByteArena'
 
@@ -308,8 +308,34 @@ def r17_6(cx):
                     for e, val, ed in wr.facts_at(c.bb))
         fed = any(k.op.endswith('::read_n') for k in c.arg(1).calls())
         cx.count_sites()
+        # the wrapper reports the number of bytes delivered: the length of the slice read_n returned
+        oks = [pos for pos, st in wr.statements() if st['k'] == 'assign' and st['pl']['l'] == 0 and not st['pl']['p'] and st['rv']['k'] == 'agg' and st['rv']['variant'] == 'Ok']
+        okr = bool(oks)
+        for pos in oks:
+            v = wr.operand_expr(wr.blocks[pos.bb]['st'][pos.idx]['rv']['ops'][0]).strip()
+            okr = okr and is_call(v, 'len') and v.args[0].has_call('AnchoredSlice::slice') and any(k.op.endswith('::read_n') for k in v.calls()) \
+                and not any(n.kind == 'binop' for n in v.walk())
+        cx.check(okr, 'reports-delivered:' + short(side), wr, wr.loc(oks[0].bb) if oks else None, 'Ok(len of the slice read_n returned)',
+                 fail_detail='%s does not report the number of bytes read_n delivered (a short read or end of stream is misreported)' % short(wr.name))
         cx.check(gated and fed, 'only-on-Ok:' + short(side), wr, c.loc(), '%s runs only on the Ok edge of read_n, on its result' % anch,
                  fail_detail='%s is reachable without read_n having succeeded (gated=%s, fed by read_n=%s)' % (anch, gated, fed))
 
 
-RULES = [('R17.1', r17_1), ('R17.2', r17_2), ('R17.3', r17_3), ('R17.4', r17_4), ('R17.5', r17_5), ('R17.6', r17_6)]
+def r17_7(cx):
+    """the allocation under read_n does not panic at a size boundary: an assertion over a pair of values that a dominating guard also compares is implied by that guard"""
+    prog = cx.prog
+    root = prog.fn(ARENA + '::read_n')
+    fns = [root] + [f for f in prog.may_call_star(root)[0] if f.crate == 'owning_iovec' and 'byte_arena' in f.name and not f.d.get('derived')]
+    seen = set()
+    for fn in sorted(fns, key=lambda f: f.name):
+        if fn.key in seen:
+            continue
+        seen.add(fn.key)
+        for i, (b, (op, a, c), guards, implied) in enumerate(boundary_checks(fn)):
+            cx.count_sites()
+            cx.check(implied, 'boundary:%s#%d' % (short(fn.name), i), fn, fn.loc(b), 'assert %s %s %s follows from the guard(s) %s on the same pair' % (show(a)[:30], op, show(c)[:30], guards),
+                     fail_detail='the guards establish only %s between %s and %s, the assertion needs %s: it fires when the two are equal (a request of exactly that size panics instead of being served)'
+                     % (guards, show(a)[:40], show(c)[:40], op))
+
+
+RULES = [('R17.1', r17_1), ('R17.2', r17_2), ('R17.3', r17_3), ('R17.4', r17_4), ('R17.5', r17_5), ('R17.6', r17_6), ('R17.7', r17_7)]
